@@ -640,10 +640,17 @@ impl<'r> Lowerer<'r> {
             self.vars.push((tmp.clone(), ty));
 
             self.do_assign(Place::new(tmp.clone(), ty), ty, receiver);
+
+            // Until the call is made, the value still belongs to this
+            // scope: a later argument might leave the function.
+            self.stack_slots
+                .last_mut()
+                .unwrap()
+                .push((tmp.clone(), ty));
             args.push(tmp);
         }
 
-        args.extend(arguments.iter().map(|a| {
+        for a in arguments {
             let ty = self.type_info.type_of(a);
             let ty = self.type_info.convert(&ty);
             let op = self.expr(a);
@@ -653,8 +660,20 @@ impl<'r> Lowerer<'r> {
             self.vars.push((tmp.clone(), ty));
 
             self.do_assign(Place::new(tmp.clone(), ty), ty, op);
-            tmp
-        }));
+
+            // Until the call is made, the value still belongs to this
+            // scope: a later argument might leave the function.
+            self.stack_slots
+                .last_mut()
+                .unwrap()
+                .push((tmp.clone(), ty));
+            args.push(tmp);
+        }
+
+        // From here on the callee is responsible for the arguments.
+        for tmp in &args {
+            self.remove_live_variable(tmp);
+        }
 
         let mir_signature = ty::Signature {
             parameter_types: func
